@@ -74,7 +74,7 @@ LONG = 1600     # octets.  A frame longer than this is observed in COMPACT form:
 
 
 def is_long(case):
-    return len(case["hex"]) > 2 * LONG
+    return len(case.get("hex", "")) > 2 * LONG
 
 
 def digest(b):
@@ -516,6 +516,7 @@ class C15(Check):
         return None
 
     def impl(self, case):
+        if case.get("kind") == "optpass": return self.run_optpass(case)
         b = bytes.fromhex(case["hex"])
         obs = {"n": len(b)}
         try:
@@ -647,6 +648,10 @@ class C15(Check):
 
     # ------------------------------------------------------------------ the property on the implementation's observables
     def oracle(self, case, obs):
+        if case.get("kind") == "optpass":
+            if obs.get("infra"): return None                      # the second interpreter could not be run: said in the evidence, not a verdict
+            fs = obs.get("failures") or []
+            return None if not fs else "under python -O (assert statements compiled out) frame %s: %s" % (fs[0]["hex"][:120], fs[0]["failure"])
         if "parse_exc" in obs:
             x = obs["parse_exc"]; return "ethernet(raw) raises %s in %s" % (x["exc"], x["where"])
         if isinstance(obs.get("pktin"), dict):
@@ -717,6 +722,9 @@ class C15(Check):
             return False
 
     def _finding_key(self, case, obs, failure):
+        if case.get("kind") == "optpass":
+            fs = obs.get("failures") or [{"key": "?"}]
+            return "python-O:" + fs[0]["key"]
         if failure.startswith("ethernet(raw) raises"):
             x = obs["parse_exc"]; return "parse:%s:%s" % (x["where"], x["exc"])
         if failure.startswith("PacketIn.parsed raises"):
@@ -736,9 +744,11 @@ class C15(Check):
         return failure[:60]
 
     def nontrivial(self, case, obs):
+        if case.get("kind") == "optpass": return False
         return "skel" in obs and len(obs["skel"]) >= 3 and obs["skel"][0][1] is True
 
     def shrink_candidates(self, case):
+        if case.get("kind") == "optpass": return
         b = bytes.fromhex(case["hex"])
         n = len(b)
         if n > LONG:
@@ -755,6 +765,7 @@ class C15(Check):
 
     # ------------------------------------------------------------------ model side
     def model_request(self, case):
+        if case.get("kind") == "optpass": return None
         # the phase-1 model (`Cfg.core`) is asked as well for the fixed corpus and one generated case in eight
         how = case.get("how", "")
         if is_long(case): return None                     # asked by model_request2
@@ -763,7 +774,58 @@ class C15(Check):
 
     CUTOFF_MIN = 250      # layers.  CPython's default limit (1000 frames) less what the caller uses, at 2-3 frames per nested constructor
 
+    def run_optpass(self, case):
+        """The property does not depend on assert statements being live: the fixed corpus and the first `n` generated frames are put through
+        the same implementation run and the same oracle in a SECOND interpreter started with -O (asserts compiled out, __debug__ False).
+        Failures whose key is an open known finding are left to the main pass."""
+        import subprocess, json as _json
+        script = ("import sys, json, random\n"
+                  "sys.path.insert(0, %r)\n"
+                  "import common, c15\n"
+                  "assert not __debug__ or True\n"
+                  "chk = c15.CHECK(); chk.setup()\n"
+                  "known = set(%r)\n"
+                  "out, ran = [], 0\n"
+                  "def cases():\n"
+                  "    for c in chk.corpus():\n"
+                  "        if c.get('kind', 'frame') == 'frame': yield c\n"
+                  "    k = 0\n"
+                  "    for c in chk.generate(random.Random(%d), 'quick'):\n"
+                  "        if k >= %d: break\n"
+                  "        k += 1\n"
+                  "        if c.get('kind', 'frame') == 'frame': yield c\n"
+                  "for c in cases():\n"
+                  "    if len(c['hex']) > 2 * c15.LONG: continue\n"
+                  "    ran += 1\n"
+                  "    obs = chk.impl(c); f = chk.oracle(c, obs)\n"
+                  "    if f is None: continue\n"
+                  "    key = chk._finding_key(c, obs, f)\n"
+                  "    if key in known: continue\n"
+                  "    out.append({'hex': c['hex'], 'how': c.get('how'), 'failure': f, 'key': key})\n"
+                  "    if len(out) >= 5: break\n"
+                  "print('OPTPASS ' + json.dumps({'optimized': not __debug__, 'ran': ran, 'failures': out}))\n"
+                  ) % (os.path.dirname(os.path.abspath(__file__)), sorted(self.open_finding_keys()), case.get("seed", 1), case.get("n", 3000))
+        try:
+            r = subprocess.run([sys.executable, "-O", "-c", script], stdout=subprocess.PIPE, stderr=subprocess.PIPE, text=True, timeout=600,
+                               env=dict(os.environ, PYTHONOPTIMIZE="1"))
+            line = [l for l in r.stdout.splitlines() if l.startswith("OPTPASS ")]
+            if r.returncode != 0 or not line: return {"infra": "rc %d: %s" % (r.returncode, (r.stderr or r.stdout)[-300:])}
+            res = _json.loads(line[-1][8:])
+            if not res.get("optimized"): return {"infra": "the second interpreter did not run optimized"}
+            self.optpass = {"ran": res["ran"], "failures": len(res["failures"])}
+            return res
+        except Exception as e:
+            return {"infra": "%s: %s" % (type(e).__name__, e)}
+
+    def open_finding_keys(self):
+        try:
+            k = json.load(open(os.path.join(common.VERIF, "known_findings.json")))
+            return [f["key"] for f in k.get("findings", []) if f.get("property") == "C15"]
+        except Exception:
+            return []
+
     def model_request2(self, case, obs):
+        if case.get("kind") == "optpass": return None
         """Long frames: compact answers, and the one thing the model leaves abstract is read off the implementation's result — how many nested
         constructor activations the interpreter had room for.  An MPLS label stack is parsed by one nested constructor per entry, outside the
         nesting guard; when the interpreter runs out of stack the bare except in mpls.parse keeps the rest as bytes (mpls.py "Recursion depth?").
@@ -913,6 +975,7 @@ class C15(Check):
         for c in itertools.chain(self.tcp_tail_cases(), self.dhcp_code_cases(), self.nd_option_cases(), self.mptcp_cases()):
             if c["hex"] not in seen:
                 seen.add(c["hex"]); cases.append(c)
+        cases.append({"kind": "optpass", "n": 3000, "seed": 1, "how": "python -O pass"})
         return cases
 
     def _csum_family(self, name):
@@ -1199,7 +1262,7 @@ class C15(Check):
     def extra_evidence(self):
         for fid, kf in sorted(self.soft_known.items()):
             print("KNOWN-FINDING: property=%s %s %s" % (self.id, fid, kf.get("what", "")))
-        return {"repairs_detected_by_behaviour": self.fixes + self.vars, "variant_notes": self.variant_notes, "known_pack_print_findings_hit": sorted(self.soft_known), "distinct_failure_keys": dict(sorted(self.keys_seen.items())), "technique": self.technique, "level_text": self.level_text, "level_note": self.level_note, "design_ref": self.design_ref}
+        return {"python_O_pass": getattr(self, "optpass", None), "repairs_detected_by_behaviour": self.fixes + self.vars, "variant_notes": self.variant_notes, "known_pack_print_findings_hit": sorted(self.soft_known), "distinct_failure_keys": dict(sorted(self.keys_seen.items())), "technique": self.technique, "level_text": self.level_text, "level_note": self.level_note, "design_ref": self.design_ref}
 
 C15.theorems = ["Pox.C15." + t for t in (
     # part I: the tree as it is
